@@ -65,6 +65,38 @@ TRAV_EXCEPTIONS = {
     ('CallTreeTransformer', 'FunctionDef', 'args.kwonlyargs'): 'parameter annotations',
     ('CallTreeTransformer', 'FunctionDef', 'args.kwarg'): 'parameter annotations',
 }
+# a field that may stay unvisited only under a stated condition: (class, kind,
+# field) -> (guards that must all hold where it is visited -- nothing else may
+# keep the visit away --, reason)
+TRAV_GUARDED_EXCEPTIONS = {
+    ('CallTreeTransformer', 'FunctionDef', 'returns'): (
+        {'%s.returns', 'self.state[_Function].level'},
+        'the return annotation of the function being converted is evaluated where '
+        'that function is defined, outside every converted function: no scope '
+        'object exists there (nested functions: visited, in the enclosing scope)'),
+}
+
+
+def _guarded_exception_holds(h, fld, guards):
+  """the one statement that dispatches h's field `fld` is reached exactly under
+  the conjunction of `guards` (truth tests, %s = the handler's parameter)"""
+  prm = h.params()[0]
+  want = {g % prm if '%s' in g else g for g in guards}
+  sts = [a for a in ast.walk(h.node) if isinstance(a, ast.Assign) and core.norm(
+      a.targets[0]) == '%s.%s' % (prm, fld) and isinstance(a.value, ast.Call) and
+         core.norm(a.value.func) in ('self.visit', 'self.visit_block')]
+  if len(sts) != 1:
+    return False
+  got = set()
+  for pol, t in formula.path_condition(h.node, sts[0]):
+    if pol == 'T':
+      for v in (t.values if isinstance(t, ast.BoolOp) and isinstance(t.op, ast.And) else [t]):
+        got.add(core.norm(v))
+    elif pol == 'F':
+      return False
+  return got == want
+
+
 GLOBAL_FIELD_EXCEPTIONS = {
     'type_params': 'PEP 695 type parameters are outside the property class',
 }
@@ -238,6 +270,9 @@ def check(model, rep, tier):
           for sp in subs:
             if (cname, P, sp) in TRAV_EXCEPTIONS:
               continue
+            if (cname, P, sp) in TRAV_GUARDED_EXCEPTIONS and _guarded_exception_holds(
+                h, sp, TRAV_GUARDED_EXCEPTIONS[(cname, P, sp)][0]):
+              continue
             bad.append((sp, ex))
       if bad:
         seen = set()
@@ -265,6 +300,35 @@ def check(model, rep, tier):
             'traversed': sorted(set.intersection(
                 *[set(e.paths) for e in exits]))})
     rep.unit('responsible passes')
+
+  # what a def statement evaluates when it runs (decorators, defaults, the return
+  # annotation) is evaluated in the *enclosing* function: a call there is routed
+  # with the enclosing function's scope object, so the call-tree pass must
+  # dispatch those fields outside the frame it opens for the function itself
+  ct = model.cls(CONV + 'call_trees.py', 'CallTreeTransformer')
+  hfd = ct.methods.get('visit_FunctionDef')
+  if hfd is None:
+    raise core.AnalysisError('CallTreeTransformer.visit_FunctionDef not found')
+  fp_ = hfd.params()[0]
+  frames = [w for w in ast.walk(hfd.node) if isinstance(w, ast.With) and any(
+      core.norm(i.context_expr).startswith('self.state[') for i in w.items)]
+  inside = []
+  for w in frames:
+    for c in ast.walk(w):
+      if isinstance(c, ast.Call) and core.norm(c.func) in ('self.visit', 'self.visit_block') \
+          and c.args:
+        a0 = core.norm(c.args[0])
+        for fld in ('decorator_list', 'args.defaults', 'args.kw_defaults', 'returns'):
+          if a0 == '%s.%s' % (fp_, fld) or a0.startswith('%s.%s[' % (fp_, fld)):
+            inside.append(fld)
+  rep.check(len(frames) == 1 and not inside, 'ROUTE',
+            '%s:definition-time-fields-in-the-enclosing-frame' % hfd.site,
+            'decorators, defaults and the return annotation of a nested def are '
+            'evaluated by the def statement, in the enclosing function: converted '
+            'inside the frame of the function itself, their calls name a scope object '
+            'that does not exist yet', {'dispatched_inside_own_frame': sorted(set(inside))},
+            line=hfd.node.lineno,
+            witness='def f(x): def g(y) -> h(4): ...  -- NameError: fscope_1')
 
   # ---------------------------------------------------------------- ROUTE
   def route(rel, cname, kind, allow_tokens=(), allow_reason=''):
